@@ -3,12 +3,12 @@
 package benchseries
 
 import (
-	"regexp"
 	"encoding/json"
 	"fmt"
 	"math"
 	"os"
 	"path/filepath"
+	"regexp"
 	"sort"
 	"strings"
 	"testing"
@@ -589,6 +589,7 @@ func TestVerifC18(t *testing.T) {
 	c18Histories(c, mc.Pick(c, 3, 4))
 	c18Files(c)
 	c18Tables(c, mc.Pick(c, 7, 8))
+	c18Stamps(c)
 	c18Bootstrap(c, mc.Pick(c, 4, 5))
 	c18Context(c, mc.Pick(c, 2, 3))
 	c18Dates(c)
